@@ -16,8 +16,13 @@
      for populate levels (`<<`, incl. the projection pattern).
    Round 5: intersect_<l> addressing inside the nest theorem; C16_model_meets_spec_partial (the
      whole oracle for nests without populate levels).  Missing for the full statement: the
-     populate levels (C16_level_spec instance for pop_loop / proj_loop: stamp discipline of the
-     saved copies, destination-side addressing against z before / after).
+     populate levels.
+   Round 6: C16_pop_stamp_discipline, C16_pop_loop_facts, C16_pop_level_core (the populate level
+     over an abstract source).  Missing for the full statement: connecting run_level's populate
+     branch to C16_pop_level_core for the two concrete sources (labels 0,1 / 2,3 from the label
+     invariant; S4 from C16_intersect_rows with labels 2,3; S5 from pos_ok), the nest induction
+     over the populate prefix (C16_nest_spec), destination-side addressing against z before /
+     after (zs = true), the projection level (matched-rank events), and the glue for them.
    NOT proved (checked by the oracle c16_holds on the implementation's files and, as verdict
    bit 4, on the model's files for every generated case): the hypotheses of C16_level_spec for
    `&` levels (yielded elements = lookup intersection, locality of its events) and for `<<`
@@ -27,7 +32,7 @@ From Coq Require Import ZArith List Bool.
 From FT Require Import Model.Base Model.Obs Model.C16Metrics Model.C16Nest Model.C16Check
                        Proofs.C16MetricsP Proofs.C16CheckP Proofs.C16AndP
                        Proofs.C16CoreP Proofs.C16RefP Proofs.C16NestP Proofs.C16PlainP
-                       Proofs.C16AndLevelP Proofs.C16EagerP Proofs.C16GlueP.
+                       Proofs.C16AndLevelP Proofs.C16EagerP Proofs.C16GlueP Proofs.C16PopP.
 Import ListNotations.
 Open Scope Z_scope.
 
@@ -240,6 +245,80 @@ Example C16_model_meets_spec_partial_nonvacuous :
               k_thresholds := [2; 1000] |} in
   c16_wf c = true /\ c16_region c = 0 /\ forallb eager_level (k_levels c) = true.
 Proof. vm_compute. auto. Qed.
+
+(* Round 6: the populate generator  z << src.
+
+   C16_pop_stamp_discipline (obligations 3 and 4): for a traversal whose trips have the form of a
+   populate item - implicit events, copy of the counters (ESave), at most one read row of the
+   existing element, the iter row and incIter of the `for` statement, then nothing or
+   [bump of the copy; write row stamped with the copy; incIter] - followed by the source's last
+   events and the shift phase, the own-counter values of the rows of EVERY trace (explicit-stamp
+   rows of populate_read / populate_write included) are non-decreasing, and no bump or
+   explicit-stamp row comes before a copy has been saved ([lsafe]); the shift phase is only
+   entered after some trip. *)
+Theorem C16_pop_stamp_discipline : forall i items fin_s S kind label,
+  Forall (popitem i 0) items -> Forall noexp fin_s -> is_shift S -> (items = [] -> S = []) ->
+  (Forall (no_key kind label) fin_s \/ Forall (no_key kind label) S) ->
+  chain lex_le (ws (ltrace (0, None) (skels i items ++ fin_s ++ S) kind label)) = true
+  /\ lsafe (0, None) (skels i items ++ fin_s ++ S) = true.
+Proof. exact pop_skel_chain. Qed.
+Print Assumptions C16_pop_stamp_discipline.
+
+(* C16_pop_loop_facts (obligations 1 and 2): every trip of pop_loop has that form, its events are
+   those of the source plus populate_<b> / populate_read rows and incIter of the level's own rank,
+   the body is handed a well-typed destination (depth nz - (i+1)), the label state and the typing
+   of the populated fiber are preserved, the children are those of the source. *)
+Theorem C16_pop_loop_facts : forall i la lb rt wt bt zleaf cmpr ip (body : body_t) pt dz,
+  (zleaf = true -> dz = O) -> (zleaf = false -> (0 < dz)%nat) ->
+  (forall c e' z', labinv (S i) z' -> zty dz z' ->
+     labinv (S i) (snd (body c e' z')) /\ zty dz (snd (body c e' z'))) ->
+  forall els j st ls, linv (S i) ls -> ftyp dz (p_z st) ->
+  let res := pop_loop (Z.of_nat i) la lb rt wt bt zleaf cmpr ip body els j st ls in
+  Forall2 (fun it el =>
+             it_c it = fst (snd el) /\ it_env it = snd (snd el)
+             /\ labinv (S i) (it_zin it) /\ zty dz (it_zin it)
+             /\ it_body it = fst (body (it_c it) (it_env it) (it_zin it))
+             /\ (exists A E3, it_pre it = (fst el ++ A) ++ [ESave (Z.of_nat i)] ++ E3
+                              /\ Forall (popA i la lb) A /\ e3form (Z.of_nat i) la E3)
+             /\ wform (Z.of_nat i) la (it_post it)) (fst res) els
+  /\ map (fun it => (it_c it, it_j it)) (fst res)
+     = map (fun jc : Z * (list mev * (Z * env)) => (fst (snd (snd jc)), fst jc)) (enumZ els j)
+  /\ children pt (fst res) = map (fun el => (pt ++ [fst (snd el)], snd (snd el))) els
+  /\ linv (S i) (snd (snd res)) /\ ftyp dz (p_z (fst (snd res))).
+Proof. exact pop_loop_facts. Qed.
+Print Assumptions C16_pop_loop_facts.
+
+(* C16_pop_level_core: the instance of C16_level_spec for a populate level  z_i << src  over an
+   abstract source stream (els, fin_s): if the source's events are intersect rows / incIter of
+   rank i, its elements are the reference elements of the level, its intersect rows are addressed
+   (S4) and the stream positions address the source (S5), and the bodies meet [spec] one level
+   down on well-typed destinations, then the whole level meets [spec] (zs = false): counter
+   vector restored, loop order, header, stamps ordered in EVERY trace of the level - populate_<b>,
+   populate_read_<a>, populate_write_<a> with their saved-stamp rows and the shift phase included -
+   and iter / intersect / populate_<b> rows addressed against the reference space. *)
+Theorem C16_pop_level_core : forall n tr i s u zu sh lv' pt e (body : body_t) zes els fin_s ls3 ip zleaf dz,
+  length pt = i ->
+  let r := Z.of_nat i in
+  let L := {| l_pop := true; l_src := s; l_ufmt := u; l_zufmt := zu; l_proj := None; l_shape := sh |} in
+  let rt := tr (r, K_RD, 0) in let wt := tr (r, K_WR, 0) in let bt := tr (r, K_POP, 1) in
+  linv (S i) ls3 -> ftyp dz zes -> (zleaf = true -> dz = O) -> (zleaf = false -> (0 < dz)%nat) ->
+  (forall c e' z', labinv (S i) z' -> zty dz z' ->
+     labinv (S i) (snd (body c e' z')) /\ zty dz (snd (body c e' z'))) ->
+  (forall c e' z', labinv (S i) z' -> zty dz z' -> In (c, e') (ref_elems L e) ->
+     spec false tr n (S i) lv' (pt ++ [c]) e' (fst (body c e' z'))) ->
+  Forall (fun el => Forall (srcP i) (fst el)) els -> Forall (srcP i) fin_s ->
+  map snd els = ref_elems L e ->
+  (forall label, tr (r, K_INT, label) = true ->
+     map (fun cp : Z * Z => pt ++ [fst cp; snd cp]) (uses label (flat_map fst els ++ fin_s))
+     = expect_at L false K_INT label [] [] pt e) ->
+  (bt = true -> map (fun jc : Z * (Z * env) => pt ++ [fst (snd jc); fst jc]) (enumZ (ref_elems L e) 0)
+                = expect_at L false K_POP 1 [] [] pt e) ->
+  let res := pop_loop r 0 1 rt wt bt zleaf (negb zu) ip body els 0 (pst0 zes) ls3 in
+  spec false tr n i (L :: lv') pt e
+       ([EReg r] ++ flat_items r (fst res) ++ (fin_s ++ pop_final r 0 rt wt ip (fst (snd res))) ++ [EEnd r])
+  /\ linv (S i) (snd (snd res)) /\ ftyp dz (p_z (fst (snd res))).
+Proof. exact pop_level_core. Qed.
+Print Assumptions C16_pop_level_core.
 
 (* C16_model_meets_spec, full statement (NOT proved):
      forall c, c16_wf c = true -> c16_region c = 0 -> c16_holds c (c16_model c) = true
